@@ -105,6 +105,24 @@ def generate(rng, tier, seed):
             c = Case(f"{ver}:reused-object:overlapping-blocks", {})
             overlapping_reuse(c, rng, ver)
             yield c
+    # the key standing in a relation to the other arguments: the KBPK itself (as an equal value and as the very same object), its
+    # halves, its complement, the header text as bytes - every key is a key
+    for ver, (bs, ksizes, ml) in VERS.items():
+        for ks in ksizes:
+            kbpk = rb(rng, ks)
+            h = make_header(rng, ver, rand_blocks(rng, rng.randrange(0, 2)))
+            for key, note in ((bytes(kbpk), "equal to the KBPK"), (kbpk, "the KBPK object itself"), (kbpk[:8], "first component of the KBPK"),
+                              (bytes(b ^ 0xFF for b in kbpk), "complement of the KBPK"), (str(h).encode(), "the header text")):
+                c = Case(f"{ver}:key-related-to-other-arguments", {"note": note, "kbpk": ks})
+                before = header_tuple(h)
+                w = wrap_case(c, kbpk, h, key, rng.choice([None, 0]))
+                if not w.ok:
+                    c.fail(f"wrap raised {w.err} for a key that is {note}")
+                else:
+                    u = unwrap_case(c, kbpk, w.value)
+                    if not u.ok or u.value[1] != key or header_tuple(u.value[0]) != before:
+                        c.fail(f"round trip fails for a key that is {note}")
+                yield c
     from props.tr31util import self_referential
     for ver in "ABCD":
         for h, key, mask, note in self_referential(rng, ver):
